@@ -6,7 +6,7 @@ import QuartzModel.Sched.Faults
 
 * `theShape`: the one `Faults.Shape` that satisfies `Faults.WF` (`wf_eq`): the shape the TRANSLATED code is proved to have.
 * `scriptQ eE eO i : JobQueueExt SQ Unit`: a queue every answer of which is dictated by the model input `i : Faults.In`
-  (`Size()` answers `i.size` the first time and `i.size2` afterwards, `Head()` answers `i.head`, `Pop()` `i.pop`, `Push()`
+  (`Size()` answers `i.size` before the `Pop()` of the iteration and `i.size2` after it, `Head()` answers `i.head`, `Pop()` `i.pop`, `Push()`
   `i.pushOk`); `eE` is the error value it uses for "empty" (any error with `errors.Is(eE, ErrQueueEmpty)`), `eO` the one for every
   other failure (any error that is not).  Its state `SQ` is the script's own log: the calls with their outcomes, the job handed out
   by `Pop()`, the job accepted by `Push()`.
@@ -25,7 +25,7 @@ def maxDur : Int := 9223372036854775807
 def theShape : Shape :=
   { onSizeErr := .retry, backoff := .deadline, onBackoff := .untilRetry, onEmpty := .max, onDefault := .nextTick,
     headErr := .retry, headEmpty := .retry, stateFromTick := true, popErrReturned := true, popEmpty := .unlessSizeZero,
-    pushErrReturned := true }
+    pushErrReturned := true, backoffFirst := true, stateFromArm := true }
 
 theorem theShape_wf : WF theShape := by decide
 
@@ -40,13 +40,15 @@ theorem theShape_wf : WF theShape := by decide
 @[simp] theorem theShape_popErrReturned : theShape.popErrReturned = true := rfl
 @[simp] theorem theShape_popEmpty : theShape.popEmpty = .unlessSizeZero := rfl
 @[simp] theorem theShape_pushErrReturned : theShape.pushErrReturned = true := rfl
+@[simp] theorem theShape_backoffFirst : theShape.backoffFirst = true := rfl
+@[simp] theorem theShape_stateFromArm : theShape.stateFromArm = true := rfl
 
 /-- `WF` pins the shape down completely -/
 theorem wf_eq (S : Shape) (h : WF S) : S = theShape := by
-  obtain ⟨h1, h2, h3, h4, h5, h6, h7, h8, h9, h10, h11⟩ := h
+  obtain ⟨h1, h2, h3, h4, h5, h6, h7, h8, h9, h10, h11, h12, h13⟩ := h
   cases S
   simp only [theShape] at *
-  subst h1 h2 h3 h4 h5 h6 h7 h8 h9 h10 h11
+  subst h1 h2 h3 h4 h5 h6 h7 h8 h9 h10 h11 h12 h13
   rfl
 
 /-! ## representation -/
@@ -66,7 +68,8 @@ def toEntry (j : scheduledJob) : Entry := { key := deref j.trigger, prio := j.pr
 
 /-- the script's own record of what happened to it -/
 structure SQ where
-  nSize : Nat := 0
+  /-- `Pop()` has been called (the `Size()` that follows is the one of `fetchAndReschedule`) -/
+  afterPop : Bool := false
   log : List (Op × Outcome) := []
   popped : Option scheduledJob := none
   pushed : Option scheduledJob := none
@@ -79,9 +82,9 @@ def scriptQ (eE eO : Err) (i : In) : JobQueueExt SQ Unit where
   Push q j := if i.pushOk then ({ q.call .push .ok with pushed := j }, none) else (q.call .push .err, some eO)
   Pop q :=
     match i.pop with
-    | .ok e => ({ q.call .pop .ok with popped := some (ofEntry e) }, (some (ofEntry e), none))
-    | .empty => (q.call .pop .empty, (none, some eE))
-    | .err => (q.call .pop .err, (none, some eO))
+    | .ok e => ({ q.call .pop .ok with popped := some (ofEntry e), afterPop := true }, (some (ofEntry e), none))
+    | .empty => ({ q.call .pop .empty with afterPop := true }, (none, some eE))
+    | .err => ({ q.call .pop .err with afterPop := true }, (none, some eO))
   Head q :=
     match i.head with
     | .ok f => (q.call .head .ok, (some (ofEntry ⟨0, f⟩), none))
@@ -91,9 +94,9 @@ def scriptQ (eE eO : Err) (i : In) : JobQueueExt SQ Unit where
   Remove q _ := (q, (none, some eO))
   ScheduledJobs q _ := (q, ([], some eO))
   Size q :=
-    match (if q.nSize = 0 then i.size else i.size2) with
-    | some n => ({ q.call .size .ok with nSize := q.nSize + 1 }, (Int.ofNat n, none))
-    | none => ({ q.call .size .err with nSize := q.nSize + 1 }, (0, some eO))
+    match (if q.afterPop then i.size2 else i.size) with
+    | some n => (q.call .size .ok, (Int.ofNat n, none))
+    | none => (q.call .size .err, (0, some eO))
   Clear q := (q, some eO)
 
 /-- triggers by identity -/
@@ -109,18 +112,22 @@ def envOf (c : Cfg) (blocking : Bool) (workers : Int) : Env :=
   { opts := { BlockingExecution := blocking, WorkerLimit := workers, OutdatedThreshold := c.thr, RetryInterval := c.R },
     started := true, now := 0 }
 
-/-- a model input as the generated input record. `dsel`: what the `select` of the worker-pool dispatch does;
+/-- a model input as the generated input record: the three clock readings of the arming part that lie on different paths
+    through the `switch` (`time.Until(retryAt)`, the two `retryAt = time.Now().Add(…)`) are the model's one `now2`. `dsel`: what the `select` of the worker-pool dispatch does;
     `tstop`: what `timer.Stop()` answers in the interrupt case (neither is part of the model) -/
 def inpOf (i : In) (dsel : executeAndReschedule.Sel1) (tstop : Bool) : Inputs :=
   { calculateNextTick_now1 := i.now2, fetchAndReschedule_now := i.nowVal, executeAndReschedule_sel1 := dsel,
-    startExecutionLoop_now1 := i.now1, startExecutionLoop_now2 := i.now2,
+    startExecutionLoop_now1 := i.now1, startExecutionLoop_now2 := i.now2, startExecutionLoop_now3 := i.now2,
+    startExecutionLoop_now4 := i.now2,
     startExecutionLoop_sel1 := if i.interrupted then .recv_sched_interrupt else .recv_timer_C,
-    startExecutionLoop_now3 := i.nowErr, startExecutionLoop_timerStop1 := tstop }
+    startExecutionLoop_now5 := i.nowErr, startExecutionLoop_timerStop1 := tstop }
 
 @[simp] theorem envOf_R (c : Cfg) (b : Bool) (w : Int) : (envOf c b w).opts.RetryInterval = c.R := rfl
 @[simp] theorem inpOf_now1 (i : In) (d : executeAndReschedule.Sel1) (t : Bool) : (inpOf i d t).startExecutionLoop_now1 = i.now1 := rfl
 @[simp] theorem inpOf_now2 (i : In) (d : executeAndReschedule.Sel1) (t : Bool) : (inpOf i d t).startExecutionLoop_now2 = i.now2 := rfl
-@[simp] theorem inpOf_now3 (i : In) (d : executeAndReschedule.Sel1) (t : Bool) : (inpOf i d t).startExecutionLoop_now3 = i.nowErr := rfl
+@[simp] theorem inpOf_now3 (i : In) (d : executeAndReschedule.Sel1) (t : Bool) : (inpOf i d t).startExecutionLoop_now3 = i.now2 := rfl
+@[simp] theorem inpOf_now4 (i : In) (d : executeAndReschedule.Sel1) (t : Bool) : (inpOf i d t).startExecutionLoop_now4 = i.now2 := rfl
+@[simp] theorem inpOf_now5 (i : In) (d : executeAndReschedule.Sel1) (t : Bool) : (inpOf i d t).startExecutionLoop_now5 = i.nowErr := rfl
 @[simp] theorem inpOf_sel (i : In) (d : executeAndReschedule.Sel1) (t : Bool) :
     (inpOf i d t).startExecutionLoop_sel1 = if i.interrupted then .recv_sched_interrupt else .recv_timer_C := rfl
 @[simp] theorem inpOf_tstop (i : In) (d : executeAndReschedule.Sel1) (t : Bool) : (inpOf i d t).startExecutionLoop_timerStop1 = t := rfl
@@ -202,9 +209,9 @@ def absOut (st : BState) (r : LSt SQ Unit × (Time × Bool)) : Out :=
 
 theorem scriptQ_Size (eE eO : Err) (i : In) (q : SQ) :
     (scriptQ eE eO i).Size q =
-      match (if q.nSize = 0 then i.size else i.size2) with
-      | some n => ({ q.call .size .ok with nSize := q.nSize + 1 }, (Int.ofNat n, none))
-      | none => ({ q.call .size .err with nSize := q.nSize + 1 }, (0, some eO)) := rfl
+      match (if q.afterPop then i.size2 else i.size) with
+      | some n => (q.call .size .ok, (Int.ofNat n, none))
+      | none => (q.call .size .err, (0, some eO)) := rfl
 
 /-- what `fetch` dispatches is what it popped -/
 theorem fetch_dispatched_popped (S : Shape) (c : Cfg) (trig : Trig) (i : In) (e : Entry)
@@ -295,14 +302,15 @@ theorem i64_id {x : Int} (h : -9223372036854775808 ≤ x ∧ x ≤ 9223372036854
   unfold i64; omega
 
 /-- **`calculateNextTick` = `Faults.calcNextTick`** for the shape the code has: same duration, exactly one `Head()` call,
-    nothing but a log line recorded. Hypothesis: no int64 overflow in `nextRunTime - now`. -/
+    nothing but a log line recorded; the error result is non-nil exactly when `Head()` failed with an error other than
+    `ErrQueueEmpty`. Hypothesis: no int64 overflow in `nextRunTime - now`. -/
 theorem calculateNextTick_spec (eE eO : Err) (hE : errorsIs (some eE) (some ErrQueueEmpty) = true)
     (hO : errorsIs (some eO) (some ErrQueueEmpty) = false) (trig : Trig) (c : Cfg) (b : Bool) (w : Int) (i : In)
     (inp : Inputs) (hnow : inp.calculateNextTick_now1 = i.now2) (σ : LSt SQ Unit)
     (hov : ∀ f, i.head = .ok f → f > i.now2 → i64 (f - i.now2) = f - i.now2) :
     calculateNextTick (scriptQ eE eO i) (scriptT trig) (envOf c b w) inp σ =
       ({ queue := σ.queue.call .head i.head.outcome, trigs := σ.trigs, out := σ.out ++ calcLogs i.head },
-        calcNextTick theShape c i.head i.now2) := by
+        (calcNextTick theShape c i.head i.now2, if i.head = .err then some eO else none)) := by
   cases hh : i.head with
   | ok f =>
     by_cases hf : f > i.now2
@@ -320,11 +328,11 @@ theorem calculateNextTick_spec (eE eO : Err) (hE : errorsIs (some eE) (some ErrQ
 /-- **`executeAndReschedule` = `Faults.fetch`** for the shape the code has: the same queue calls with the same outcomes, the same
     popped / pushed / dispatched entry, the error result is non-nil exactly when the model says so (`retErr`), and nothing is
     received from the interrupt channel.
-    Hypotheses: `Size()` has been called before (the loop's own call), no int64 overflow in `now - OutdatedThreshold`, and — the
+    Hypotheses: no int64 overflow in `now - OutdatedThreshold`, and — the
     model has no such case — the worker-pool `select` is not decided by `ctx.Done()`. -/
 theorem executeAndReschedule_spec (eE eO : Err) (hE : errorsIs (some eE) (some ErrQueueEmpty) = true)
     (hO : errorsIs (some eO) (some ErrQueueEmpty) = false) (trig : Trig) (c : Cfg) (b : Bool) (w : Int) (i : In)
-    (inp : Inputs) (hnow : inp.fetchAndReschedule_now = i.nowVal) (σ : LSt SQ Unit) (hn : σ.queue.nSize ≠ 0)
+    (inp : Inputs) (hnow : inp.fetchAndReschedule_now = i.nowVal) (σ : LSt SQ Unit)
     (hov : i64 (i.nowVal - c.thr) = i.nowVal - c.thr)
     (hmode : b = true ∨ w ≤ 0 ∨ inp.executeAndReschedule_sel1 = .send_dispatch) :
     let F := fetch theShape c trig i
@@ -345,16 +353,16 @@ theorem executeAndReschedule_spec (eE eO : Err) (hE : errorsIs (some eE) (some E
     cases hs : i.size2 with
     | none =>
       simp [F, r, fetch, theShape, executeAndReschedule, LSt.callSched, fetchAndReschedule, scriptQ, St.callQ, St.emit, hp, hE,
-        SQ.call, resetOf, dispOf, hn, hs]
+        SQ.call, resetOf, dispOf, hs]
     | some n =>
       cases n with
       | zero =>
         simp [F, r, fetch, theShape, executeAndReschedule, LSt.callSched, fetchAndReschedule, scriptQ, St.callQ, St.emit, hp,
-          hE, SQ.call, resetOf, dispOf, hn, hs]
+          hE, SQ.call, resetOf, dispOf, hs]
       | succ n =>
         have hne : ¬ ((n : Int) + 1 = 0) := by omega
         simp [F, r, fetch, theShape, executeAndReschedule, LSt.callSched, fetchAndReschedule, scriptQ, St.callQ, St.emit, hp,
-          hE, SQ.call, resetOf, dispOf, hn, hs, hne]
+          hE, SQ.call, resetOf, dispOf, hs, hne]
   | ok e =>
     have hmode' : b = false → ¬ (w > 0) ∨ inp.executeAndReschedule_sel1 = .send_dispatch := by
       intro hb; rcases hmode with h | h | h
